@@ -72,7 +72,11 @@ def seed_job(sd):
             return tag, "ok", "recorded miss (no check reports it)"
         prop = others[0]
     if isinstance(model, Exception):
-        st, detail = "error", repr(model)[:140]
+        from sa.repo import PlumbingViolation
+        if isinstance(model, PlumbingViolation):
+            st, detail = "violation", repr(model)[:140]   # reported as VIOLATION by the CLI
+        else:
+            st, detail = "error", repr(model)[:140]
     else:
         import contextlib
         import io
